@@ -999,6 +999,18 @@ class Exec(Interp):
                     return [(st, r)]
                 if name in ('wrapping_add', 'wrapping_sub', 'wrapping_mul', 'pow', 'abs_diff', 'rem_euclid', 'div_euclid'):
                     return [(st, self.mk_int(st, ty))]
+            if name in ('abs', 'wrapping_abs', 'unsigned_abs', 'saturating_abs', 'signum') and len(A) == 1:
+                if name == 'signum':
+                    return [(st, self.mk_int(st, ty, -1 if la < 0 else (0 if la == 0 else 1), 1 if ha > 0 else (0 if ha == 0 else -1)))]
+                if name == 'abs' and la == tl and tl < 0:
+                    # |MIN| does not fit: `abs` inherits the caller's overflow checks
+                    self.oblige('overflow', fr, 'abs(%s)' % op_name(fr.body, t['args'][0]), [self.describe(st, A[0])], line, chain)
+                    la = la + 1
+                lo = 0 if la <= 0 <= ha else min(abs(la), abs(ha))
+                hi = max(abs(la), abs(ha))
+                rty = ty if name != 'unsigned_abs' else 'u' + ty[1:]
+                hi = min(hi, INT_RANGE.get(rty, (0, hi))[1])
+                return [(st, self.mk_int(st, rty, lo, hi))]
             if name in ('is_power_of_two',):
                 return [(st, self.mk_bool(st))]
             if name in ('count_ones', 'leading_zeros', 'trailing_zeros'):
@@ -1234,7 +1246,8 @@ class Exec(Interp):
                 return [(st, self.mk_bool(st, False))]
         if name in ('sum', 'product', 'fold', 'count', 'contains', 'mul_add', 'cmp', 'partial_cmp', 'collect', 'map', 'rev', 'zip', 'enumerate',
                     'next', 'copied', 'cloned', 'skip', 'take', 'all', 'any', 'for_each', 'reduce', 'windows', 'step_by', 'first', 'last',
-                    'get', 'get_unchecked', 'get_unchecked_mut', 'sort_unstable_by', 'hash', 'fmt', 'type_name', 'split', 'size_of', 'align_of',
+                    'get', 'get_unchecked', 'get_unchecked_mut', 'sort_unstable_by', 'sort_unstable_by_key', 'sort_by', 'sort_by_key', 'sort_unstable', 'sort',
+                    'sort_by_cached_key', 'binary_search_by', 'hash', 'fmt', 'type_name', 'split', 'size_of', 'align_of',
                     'push', 'extend', 'copy_from_slice', 'copy_within', 'serialize_struct', 'serialize_field', 'end', 'deserialize'):
             if name == 'copy_from_slice' and len(A) == 2:
                 a, b = dv(A[0]), dv(A[1])
